@@ -1030,7 +1030,8 @@ pub fn measure_temperature(cfg: &Cfg, spec: &ProbeSpec, t: usize, guess: f64, re
 pub fn c18_configs(tier: Tier) -> Vec<Cfg> {
     let mut v = vec![];
     let shapes: Vec<(u64, u64)> = if tier == Tier::Quick { vec![(4, 1), (4, 0), (6, 2), (12, 4), (7, 3), (5, 5), (5, 9), (18, 1)] } else { vec![(4, 1), (4, 0), (6, 0), (6, 2), (10, 1), (12, 3), (12, 4), (7, 3), (5, 5), (5, 9), (12, 2), (9, 4), (8, 8), (18, 1), (18, 0)] };
-    for &start in [0., 1e-10, 0.01, 0.1, 1.].iter() {
+    // (-0.0: a zero temperature that carries a minus sign, through the argument parser and through the setters)
+    for &start in [0., 1e-10, 0.01, 0.1, 1., -0.0].iter() {
         let mut schedules: Vec<(Option<f64>, Option<f64>)> = vec![(None, None)];
         for &r in [0., 0.1, 0.5, 0.9, 1.].iter() {
             schedules.push((None, Some(r)));
